@@ -281,3 +281,36 @@ def match_by_samples(pv, others, samplers, rng, tries=300):
         if len(hit) == 1:
             return hit[0]
     return None
+
+
+def isolated(fn, *args):
+    """Run fn(*args) in a forked child and return ("ok", result) or ("died", description): natively executed library code that aborts
+    (assertion) or segfaults must neither kill the checker nor go unnoticed."""
+    import os
+    import pickle
+    import signal as _sig
+    r, w = os.pipe()
+    pid = os.fork()
+    if pid == 0:
+        try:
+            os.close(r)
+            data = pickle.dumps(fn(*args))
+            with os.fdopen(w, "wb") as fh:
+                fh.write(data)
+            os._exit(0)
+        except BaseException:
+            os._exit(3)
+    os.close(w)
+    with os.fdopen(r, "rb") as fh:
+        data = fh.read()
+    _, st = os.waitpid(pid, 0)
+    if os.WIFSIGNALED(st):
+        sig = os.WTERMSIG(st)
+        try:
+            name = _sig.Signals(sig).name
+        except Exception:
+            name = str(sig)
+        return "died", "terminated by signal %s" % name
+    if os.WEXITSTATUS(st) != 0 or not data:
+        return "died", "exit status %d" % os.WEXITSTATUS(st)
+    return "ok", pickle.loads(data)
